@@ -8,8 +8,21 @@
   copied after the variable had been set shares that object with its parent (`shared`); the repaired
   code binds an immutable value per context and restores the entry value on exit (`perContext`).
 
-  Tasks execute calls of one contracted function as micro-steps; a schedule says which task
-  steps next.  User-code suspension points (awaits inside conditions / bodies, or preemption
+  Second version.  A call is a call of one of the THREE kinds of wrapper that mark something in
+  progress:
+    * `function` - `decorate_with_checker`: the mark is the id of the function; it is set while the
+      preconditions (and snapshots) are evaluated, lifted for the body, set again for the postconditions;
+    * `method`   - `_decorate_with_invariants` of a public method: the mark is the id of the INSTANCE; it
+      is set on entry, stays while the invariants are checked before the body, during the body and while
+      they are checked after it;
+    * `ctor`     - `_decorate_with_invariants` of `__init__`: the mark is the id of the instance; body
+      first, invariants after it; nothing is evaluated before the body.
+  Every wrapper restores the value it found on entry (`finally`).
+
+  Tasks execute their calls as micro-steps; a schedule is a list of operations: "task i runs to its next
+  suspension point", "a new task is created whose context is a COPY of task p's current context"
+  (`asyncio.create_task`, `asyncio.to_thread`, `copy_context().run`), "a plain thread starts with an empty
+  context".  User-code suspension points (awaits inside conditions / bodies, or preemption
   between user-code points for threads) are step boundaries.
 -/
 namespace Icontract.Conc
@@ -21,31 +34,45 @@ inductive Discipline where
   | perContext    -- repaired: immutable value per context, restored on exit
 deriving DecidableEq, Repr, Inhabited
 
-/-- one call of the contracted function `f` -/
+/-- which wrapper the call goes through -/
+inductive Kind where
+  | function
+  | method
+  | ctor
+deriving DecidableEq, Repr, Inhabited
+
+/-- one call; `f` is what the wrapper marks in progress: the id of the contracted function, or the id of
+the instance the method / constructor is called on -/
 structure CallSpec where
   f : Id
-  preTruthy : Bool          -- truth of its precondition for this call's arguments
-  condYields : Nat          -- suspension points while the precondition is evaluated
+  preTruthy : Bool          -- function: truth of its preconditions; method: of the invariants BEFORE the body
+  condYields : Nat          -- suspension points while they are evaluated
   bodyYields : Nat          -- suspension points while the body runs
+  kind : Kind := .function
+  postTruthy : Bool := true -- function: truth of its postconditions; method / ctor: of the invariants AFTER the body
+  postYields : Nat := 0     -- suspension points while they are evaluated
 deriving DecidableEq, Repr, Inhabited
 
 inductive Verdict where
   | returned          -- the call returned the body's result
-  | violation         -- the precondition's error was raised
+  | violation         -- the error of the precondition / of the invariant before the body was raised
+  | postViolation     -- the error of the postcondition / of the invariant after the body was raised
 deriving DecidableEq, Repr, Inhabited
 
 /-- where a task is inside its current call -/
 inductive Pc where
   | idle                                  -- about to start the next call
-  | inCond (left : Nat) (entry : List Id)   -- checked path, precondition being evaluated; `entry` = value at entry
+  | inCond (left : Nat) (entry : List Id)   -- checked path, contracts before the body being evaluated; `entry` = value at entry
   | inBody (left : Nat) (checked : Bool) (entry : List Id)
+  | inPost (left : Nat) (entry : List Id)   -- checked path, contracts after the body being evaluated
 deriving DecidableEq, Repr, Inhabited
 
 structure Task where
   ctx : Nat                         -- index of the set object (shared) / of its own binding (perContext)
-  calls : List CallSpec
+  calls : List CallSpec             -- the calls still to make (the head is the one in flight when `pc ≠ idle`)
   pc : Pc := .idle
   verdicts : List Verdict := []
+  program : List CallSpec := []     -- the calls the task was created with (never changes)
 deriving DecidableEq, Repr, Inhabited
 
 structure World where
@@ -62,6 +89,19 @@ def putTask (w : World) (i : Nat) (t : Task) : World :=
 def addId (s : List Id) (x : Id) : List Id := if s.contains x then s else x :: s
 def dropId (s : List Id) (x : Id) : List Id := s.filter (· != x)
 
+/-- the wrapper's `finally` / the lifting of the mark: upstream discards the id from the shared object, the
+repaired code re-binds the value found on entry -/
+def restore (d : Discipline) (w : World) (ctx : Nat) (f : Id) (entry : List Id) : World :=
+  match d with
+  | .shared => putSet w ctx (dropId (getSet w ctx) f)
+  | .perContext => putSet w ctx entry
+
+/-- the mark is set (again) -/
+def mark (d : Discipline) (w : World) (ctx : Nat) (f : Id) (entry : List Id) : World :=
+  match d with
+  | .shared => putSet w ctx (addId (getSet w ctx) f)
+  | .perContext => putSet w ctx (addId entry f)
+
 /-- one micro-step of task `i` (no-op if it has finished) -/
 def microStep (d : Discipline) (w : World) (i : Nat) : World :=
   match w.tasks[i]? with
@@ -75,31 +115,42 @@ def microStep (d : Discipline) (w : World) (i : Nat) : World :=
       if cur.contains c.f then
         putTask w i { t with pc := .inBody c.bodyYields false cur }
       else
-        putTask (putSet w t.ctx (addId cur c.f)) i { t with pc := .inCond c.condYields cur }
+        let w' := putSet w t.ctx (addId cur c.f)
+        match c.kind with
+        | .ctor => putTask w' i { t with pc := .inBody c.bodyYields true cur }
+        | _ => putTask w' i { t with pc := .inCond c.condYields cur }
     | .inCond (n + 1) e, _ => putTask w i { t with pc := .inCond n e }
     | .inCond 0 e, c :: rest =>
-      -- the precondition has been evaluated
+      -- the contracts before the body have been evaluated
       if c.preTruthy then
-        -- suspended only while the contracts are evaluated: removed for the body
-        let w' := match d with
-          | .shared => putSet w t.ctx (dropId (getSet w t.ctx) c.f)
-          | .perContext => putSet w t.ctx e
+        -- a function is suspended only while its contracts are evaluated: the mark is lifted for the body;
+        -- an instance stays marked during the body of its method
+        let w' := match c.kind with
+          | .function => restore d w t.ctx c.f e
+          | _ => w
         putTask w' i { t with pc := .inBody c.bodyYields true e }
       else
         -- violation: `finally` discards / restores
-        let w' := match d with
-          | .shared => putSet w t.ctx (dropId (getSet w t.ctx) c.f)
-          | .perContext => putSet w t.ctx e
-        putTask w' i { t with pc := .idle, calls := rest, verdicts := t.verdicts ++ [.violation] }
+        putTask (restore d w t.ctx c.f e) i { t with pc := .idle, calls := rest, verdicts := t.verdicts ++ [.violation] }
     | .inCond 0 _, [] => w
     | .inBody (n + 1) ck e, _ => putTask w i { t with pc := .inBody n ck e }
     | .inBody 0 ck e, c :: rest =>
-      -- body finished (no postconditions in this model): `finally` on the checked path
-      let w' := if ck then (match d with
-          | .shared => putSet w t.ctx (dropId (getSet w t.ctx) c.f)
-          | .perContext => putSet w t.ctx e) else w
-      putTask w' i { t with pc := .idle, calls := rest, verdicts := t.verdicts ++ [.returned] }
+      if ck then
+        -- body finished on the checked path: the function is marked again for its postconditions
+        let w' := match c.kind with
+          | .function => mark d w t.ctx c.f e
+          | _ => w
+        putTask w' i { t with pc := .inPost c.postYields e }
+      else
+        -- the unchecked (re-entrant) path: the bare body's result
+        putTask w i { t with pc := .idle, calls := rest, verdicts := t.verdicts ++ [.returned] }
     | .inBody 0 _ _, [] => w
+    | .inPost (n + 1) e, _ => putTask w i { t with pc := .inPost n e }
+    | .inPost 0 e, c :: rest =>
+      putTask (restore d w t.ctx c.f e) i
+        { t with pc := .idle, calls := rest,
+                 verdicts := t.verdicts ++ [if c.postTruthy then .returned else .postViolation] }
+    | .inPost 0 _, [] => w
 
 /-- did the micro-step from `t` end at a suspension point (a yield inside a condition / body, or the
 task boundary after a finished call)? -/
@@ -107,7 +158,9 @@ def suspendsAfter (t : Task) : Bool :=
   match t.pc, t.calls with
   | .inCond (_ + 1) _, _ => true
   | .inBody (_ + 1) _ _, _ => true
-  | .inBody 0 _ _, _ :: _ => true
+  | .inPost (_ + 1) _, _ => true
+  | .inPost 0 _, _ :: _ => true                 -- the call ends
+  | .inBody 0 false _, _ :: _ => true           -- the unchecked call ends
   | .inCond 0 _, c :: _ => !c.preTruthy         -- a violation ends the call
   | _, _ => false
 
@@ -123,14 +176,64 @@ def stepFuel (d : Discipline) : Nat → World → Nat → World
         let w' := microStep d w i
         if suspendsAfter t then w' else stepFuel d fuel w' i
 
-def step (d : Discipline) (w : World) (i : Nat) : World := stepFuel d 4 w i
+def step (d : Discipline) (w : World) (i : Nat) : World := stepFuel d 5 w i
 
-def runSchedule (d : Discipline) (w : World) (sched : List Nat) : World := sched.foldl (step d) w
+/-- what a schedule is made of -/
+inductive Op where
+  | run (i : Nat)                                  -- task i runs to its next suspension point
+  | fork (parent : Nat) (calls : List CallSpec)    -- a new task in a COPY of the parent's current context
+  | thread (calls : List CallSpec)                 -- a new plain thread: empty context
+deriving DecidableEq, Repr, Inhabited
+
+/-- a new task; under the repaired discipline a copied context has its own binding with the parent's current
+VALUE, under the upstream discipline it refers to the parent's set OBJECT -/
+def spawn (d : Discipline) (w : World) (parent : Option Nat) (calls : List CallSpec) : World :=
+  let fresh : World := { sets := w.sets ++ [[]],
+                         tasks := w.tasks ++ [{ ctx := w.sets.length, calls := calls, program := calls }] }
+  match parent with
+  | none => fresh
+  | some p =>
+    match w.tasks[p]? with
+    | none => fresh
+    | some tp =>
+      match d with
+      | .shared => { w with tasks := w.tasks ++ [{ ctx := tp.ctx, calls := calls, program := calls }] }
+      | .perContext =>
+        { sets := w.sets ++ [getSet w tp.ctx],
+          tasks := w.tasks ++ [{ ctx := w.sets.length, calls := calls, program := calls }] }
+
+def applyOp (d : Discipline) (w : World) : Op → World
+  | .run i => step d w i
+  | .fork p calls => spawn d w (some p) calls
+  | .thread calls => spawn d w none calls
+
+def runOps (d : Discipline) (w : World) (ops : List Op) : World := ops.foldl (applyOp d) w
+
+/-- schedules without creation of tasks -/
+def runSchedule (d : Discipline) (w : World) (sched : List Nat) : World := runOps d w (sched.map .run)
+
+/-- a context is copied OUTSIDE the evaluations it would disable: the parent's current value marks nothing the
+new task is going to call (in particular: the parent is between two calls, or in the body of a function) -/
+def opSafe (w : World) : Op → Bool
+  | .fork p calls =>
+    match w.tasks[p]? with
+    | none => true
+    | some tp => calls.all (fun c => !(getSet w tp.ctx).contains c.f)
+  | _ => true
+
+/-- every copy of a context in the schedule is made outside the evaluations it would disable -/
+def safeOps (d : Discipline) : World → List Op → Bool
+  | _, [] => true
+  | w, op :: rest => opSafe w op && safeOps d (applyOp d w op) rest
 
 /-- the verdict the property demands for a call: a function of the call alone -/
-def CallSpec.expected (c : CallSpec) : Verdict := if c.preTruthy then .returned else .violation
+def CallSpec.expected (c : CallSpec) : Verdict :=
+  if c.kind != .ctor && !c.preTruthy then .violation
+  else if c.postTruthy then .returned else .postViolation
 
-/-- number of micro-steps a call takes -/
-def CallSpec.steps (c : CallSpec) : Nat := c.condYields + c.bodyYields + 3
+/-- the world a process starts in: one task per program, each in its own empty context -/
+def World.start (programs : List (List CallSpec)) : World :=
+  { sets := programs.map (fun _ => []),
+    tasks := programs.zipIdx.map (fun (p, i) => { ctx := i, calls := p, program := p }) }
 
 end Icontract.Conc
